@@ -17,7 +17,9 @@ LabelSuffix(s, t) == Len(s) <= Len(t) /\ \A i \in 1..Len(s) : s[i] = t[Len(t) - 
 (* labels to the left; an IP constraint by addresses inside the subnet of the same family                 *)
 NameMatches(name, c) ==
   IF name.v # c.v THEN FALSE
-  ELSE IF name.v = "dns" THEN LabelSuffix(c.labels, name.labels)
+  (* c.dot: the constraint is written with a leading period (".example.test").  RFC 5280 defines that form for the host part of   *)
+  (* URI constraints only; the validators (OpenSSL, webpki) read it the same way for dNSName: names with at least one more label. *)
+  ELSE IF name.v = "dns" THEN LabelSuffix(c.labels, name.labels) /\ (c.dot => Len(name.labels) > Len(c.labels))
   ELSE Len(name.b) = Len(c.b) /\ InSubnet(name.b, c.b, Mask(Len(c.b), c.p))
 
 (* a name is acceptable under one CA's constraints *)
